@@ -39,7 +39,8 @@ def s1(ctx):
         for p in ctx.paths(f, 'default'):
             if p.kind == 'cut':
                 continue
-            calls = [e for e in p.trace if e.kind == 'CALL' and any(t.cls in ('Cache', 'FanoutCache') for t in e.d['targets'])]
+            calls = [e for e in p.trace if e.kind == 'CALL' and any(t.cls in ('Cache', 'FanoutCache') for t in e.d['targets'])
+                     and not e.d.get('inlined')]
             if not calls:
                 continue
             for c in calls:
@@ -165,6 +166,8 @@ def s4(ctx):
                 it = n.iter
             elif isinstance(n, ast.comprehension):
                 it = n.iter
+            elif isinstance(n, ast.Call) and isinstance(n.func, ast.Name) and n.func.id == 'map' and len(n.args) == 2:
+                it = n.args[1]      # map(f, shards): f is applied to every element, no filter possible
             if it is None:
                 continue
             src = ast.unparse(it)
@@ -184,7 +187,7 @@ def s4(ctx):
                         if not inner_while:
                             ok, why = False, 'the per-shard call is conditional (if/continue in the shard loop)'
         # the per-shard call uses the loop variable as receiver
-        if ok:
+        if ok and not isinstance(shard_iters[0][1], ast.Call):
             node = shard_iters[0][1]
             tgt = node.target
             var = tgt.id if isinstance(tgt, ast.Name) else None
@@ -197,6 +200,10 @@ def s4(ctx):
                         uses = True
                     if isinstance(m.func, ast.Name) and m.func.id in ('len', 'iter', 'reversed', 'getattr') and m.args \
                             and isinstance(m.args[0], ast.Name) and m.args[0].id == var:
+                        uses = True
+                    # ... or hands the shard to a private helper of the class
+                    if (dotted(m.func) or '').startswith('self._') and any(
+                            isinstance(a, ast.Name) and a.id == var for a in m.args):
                         uses = True
             if not uses:
                 ok, why = False, 'the loop variable is not the receiver of the per-shard call'
